@@ -28,6 +28,7 @@ type c14Scenario struct {
 	name           string
 	calls          []c14Call
 	limit, discard int
+	noClient       bool // Remotes built without an explicit Client (as the agent binary dials the pool)
 }
 
 func c14Scenarios() []c14Scenario {
@@ -40,17 +41,25 @@ func c14Scenarios() []c14Scenario {
 		return cs
 	}
 	return []c14Scenario{
-		{"two-callers-one-side", mk("a:echo", "a:echo"), 0, 0},
-		{"three-callers-one-side", mk("a:echo", "a:echo", "a:echo"), 0, 0},
-		{"callers-on-both-sides", mk("a:echo", "b:echo"), 0, 0},
-		{"both-sides-two-each", mk("a:echo", "b:echo", "a:echo"), 0, 0},
-		{"nested-depth1-plus-echo", mk("a:nest1", "a:echo"), 0, 0},
-		{"nested-depth2", mk("a:nest2", "b:echo"), 0, 0},
-		{"nested-depth3", mk("a:nest3"), 0, 0},
-		{"nested-both-directions", mk("a:nest1", "b:nest1"), 0, 0},
-		{"cancel-one-of-two", mk("a:cancel", "a:echo"), 0, 0},
-		{"cancel-vs-other-side", mk("a:cancel", "b:echo"), 0, 0},
-		{"cancel-alone", mk("a:cancel"), 0, 0},
+		{"two-callers-one-side", mk("a:echo", "a:echo"), 0, 0, false},
+		{"three-callers-one-side", mk("a:echo", "a:echo", "a:echo"), 0, 0, false},
+		{"callers-on-both-sides", mk("a:echo", "b:echo"), 0, 0, false},
+		{"both-sides-two-each", mk("a:echo", "b:echo", "a:echo"), 0, 0, false},
+		{"nested-depth1-plus-echo", mk("a:nest1", "a:echo"), 0, 0, false},
+		{"nested-depth2", mk("a:nest2", "b:echo"), 0, 0, false},
+		{"nested-depth3", mk("a:nest3"), 0, 0, false},
+		{"nested-both-directions", mk("a:nest1", "b:nest1"), 0, 0, false},
+		{"cancel-one-of-two", mk("a:cancel", "a:echo"), 0, 0, false},
+		{"cancel-vs-other-side", mk("a:cancel", "b:echo"), 0, 0, false},
+		{"cancel-alone", mk("a:cancel"), 0, 0, false},
+		// the same with connections built the way the binaries build them (no explicit Client)
+		{"two-callers-one-side/no-explicit-client", mk("a:echo", "a:echo"), 0, 0, true},
+		{"callers-on-both-sides/no-explicit-client", mk("a:echo", "b:echo"), 0, 0, true},
+		{"cancel-one-of-two/no-explicit-client", mk("a:cancel", "a:echo"), 0, 0, true},
+		{"nested-depth1-plus-echo/no-explicit-client", mk("a:nest1", "a:echo"), 0, 0, true},
+		// a handler that forwards the request, with its context, to an in-memory service
+		{"relay-to-local-service", mk("a:relay", "b:echo"), 0, 0, false},
+		{"relay-both-directions", mk("a:relay", "b:relay"), 0, 0, false},
 	}
 }
 
@@ -59,7 +68,7 @@ func c14Unit(sc c14Scenario, bound int) vh.Unit {
 	var w *vh.RPCWorld
 	var calls []c14Call
 	body := func() {
-		w = vh.NewRPCWorld(sc.limit, sc.discard)
+		w = vh.NewRPCWorldOpt(sc.limit, sc.discard, !sc.noClient)
 		w.Start()
 		calls = append([]c14Call{}, sc.calls...)
 		var fns []func()
@@ -71,9 +80,10 @@ func c14Unit(sc c14Scenario, bound int) vh.Unit {
 				remote = w.B
 			}
 			switch {
-			case c.kind == "echo":
+			case c.kind == "echo" || c.kind == "relay":
+				method := c.kind
 				fns = append(fns, func() {
-					c.err = remote.Call(context.Background(), &c.result, "echo", c.token)
+					c.err = remote.Call(context.Background(), &c.result, method, c.token)
 					c.done = true
 				})
 				names = append(names, "call-"+c.token)
@@ -105,6 +115,10 @@ func c14Unit(sc c14Scenario, bound int) vh.Unit {
 			case c.kind == "echo":
 				if c.err != nil || c.result != c.token {
 					return "rpc/wrong-reply", fmt.Sprintf("%s: echo(%s) from %s returned %q err=%v", sc.name, c.token, c.from, c.result, c.err)
+				}
+			case c.kind == "relay":
+				if c.err != nil || c.result != "leaf:"+c.token {
+					return "rpc/nested-callback", fmt.Sprintf("%s: relay(%s) from %s - forwarded to an in-memory service that calls back over the service it was called on - returned %q err=%v, want %q", sc.name, c.token, c.from, c.result, c.err, "leaf:"+c.token)
 				}
 			case c.kind == "cancel":
 				if c.err == nil && c.result != c.token {
